@@ -8,6 +8,7 @@
   the second run finds its event settled.
 -/
 import MocModel.Sqlite
+import MocProps.SqliteLemmas
 
 set_option linter.unusedSimpArgs false
 set_option linter.unusedVariables false
@@ -24,5 +25,37 @@ theorem failed_batch_is_identity (db : Db) (b : List Event) (fs : List Filter) :
 /-- retrying after a failure equals a single successful insertion -/
 theorem retry_after_failure (db : Db) (b : List Event) :
     (db.insertBatchFailing b).insertBatch b = db.insertBatch b := rfl
+
+/-- **C14, idempotence.**  Inserting a batch again — after it succeeded, or as the retry that follows a failed
+    attempt — leaves every table exactly as one successful insertion does.  Hypothesis: ids are injective on
+    created_at over the stored rows and the batch (equal id ⇒ equal event, which authenticity provides). -/
+theorem insertBatch_idempotent (db : Db) (b : List Event)
+    (h : Coherent (db.events ++ (b.filterMap buildParams).map (·.row))) :
+    (db.insertBatch b).insertBatch b = db.insertBatch b := by
+  unfold Db.insertBatch
+  exact fold_noop _ _ (fold_settled _ db h)
+
+/-- hence any number of failed attempts and retries ends in the state of a single success -/
+theorem retries_equal_single_success (db : Db) (b : List Event) (n : Nat)
+    (h : Coherent (db.events ++ (b.filterMap buildParams).map (·.row))) :
+    (List.replicate n b).foldl Db.insertBatch (db.insertBatch b) = db.insertBatch b := by
+  induction n with
+  | zero => rfl
+  | succ n ih =>
+    simp only [List.replicate_succ, List.foldl_cons]
+    rw [insertBatch_idempotent db b h]
+    exact ih
+
+/-! non-vacuity: a batch with two versions of one address (the older arriving second), a regular event and a
+    deletion request; the hypothesis holds and the second run changes nothing -/
+def hx (c : Char) : String := String.ofList [c, c]
+def exBatch : List Event := [
+  { id := hx 'a', pubkey := hx '1', createdAt := 10, kind := 30023, tags := [["d", "x"]], content := "v2", sig := hx 'a' },
+  { id := hx 'b', pubkey := hx '1', createdAt := 5, kind := 30023, tags := [["d", "x"]], content := "v1", sig := hx 'b' },
+  { id := hx 'c', pubkey := hx '1', createdAt := 7, kind := 1, tags := [["e", hx 'd']], content := "note", sig := hx 'c' },
+  { id := hx 'e', pubkey := hx '1', createdAt := 8, kind := 5, tags := [["e", hx 'c', "wss://r"]], content := "", sig := hx 'e' }]
+example : ((({} : Db).insertBatch exBatch).events.map (·.id), (({} : Db).insertBatch exBatch).delIds) =
+    ([hx 'a', hx 'c', hx 'e'], [(hx 'c', hx '1')]) := by decide
+example : ((({} : Db).insertBatch exBatch).insertBatch exBatch) = (({} : Db).insertBatch exBatch) := by decide
 
 end Moc.C14
